@@ -30,14 +30,17 @@ def rdView : Rd Pred.C13.PktView := do
 
 structure RtIn where
   mtu : UInt16
-  obus : List Obu
+  obus : List (Obu × Nat)      -- each OBU with the width of its `obu_size` field (0 = minimal)
   stream : Bytes
 
-/-- `<mtu> <list obu> <stream>`; the stream the harness built with its own serialiser must be the
-    specification's serialisation of the OBU list (otherwise the case is a harness error) -/
+/-- `<mtu> <list (obu <width>)> <stream>`; the stream the harness built with its own serialiser must
+    be the specification's serialisation of the OBU list with size fields of those widths (otherwise
+    the case is a harness error).  The model is run on the stream: it sees the raw bytes. -/
 def rdRtIn : Rd RtIn := do
-  let m ← Rd.u16; let os ← Rd.list rdObu; let s ← Rd.bytes
-  if serialise os == s then pure { mtu := m, obus := os, stream := s } else Rd.fail
+  let m ← Rd.u16
+  let os ← Rd.list (do let o ← rdObu; let w ← Rd.nat; pure (o, w))
+  let s ← Rd.bytes
+  if serialiseW os == s then pure { mtu := m, obus := os, stream := s } else Rd.fail
 
 def rdRtObs : Rd Pred.C13.RtObs := do
   let t ← Rd.tok
@@ -95,10 +98,15 @@ theorem rt_imp_rtRelaxed (mtu : Nat) (obus : List Obu) (o : Pred.C13.RtObs) :
   · exact Or.inl h
   · exact Or.inr ⟨⟨⟨⟨rulesOK_mono (le_mtuOrLongest _ _) _ hr, hd⟩, Or.inl hf⟩, hl⟩, hk⟩
 
+/-- with size fields of chosen widths: the same claim about the same OBUs whenever the widths are ones
+    the AV1 specification allows (minimal, or 1 … 8 bytes that hold the value); never a panic -/
+def rtRelaxedW (mtu : Nat) (ows : List (Obu × Nat)) (o : Pred.C13.RtObs) : Bool :=
+  !o.panicked && (!widthsOK ows || rtRelaxed mtu (ows.map (·.1)) o)
+
 def rt : Handler :=
   mkHandler rdRtIn rdRtObs (fun i => rtObs i.mtu i.stream)
-    (fun i o => rtRelaxed i.mtu.toNat i.obus o)
-    (fun i => Pred.C13.rtWF i.mtu.toNat i.obus)
+    (fun i o => rtRelaxedW i.mtu.toNat i.obus o)
+    (fun i => Pred.C13.rtWF i.mtu.toNat (i.obus.map (·.1)) && widthsOK i.obus)
 
 /-! ### c13.leb, c13.lebrd -/
 
